@@ -91,7 +91,7 @@ def gen_text(rng, max_words=4, braces=True, allow_malformed=False, placeholders=
 
 
 VALUE_STRS = ['v1', 'large', '100%', '%', '%%', '%s', '%(invocation)s', '%(benchmark)s', '~/v', 'a b',
-              'é', '{x}', 'x:~/y', '', '~', 'q=1', '50%d', '%z']
+              'é', '{x}', 'x:~/y', '', '~', 'q=1', '50%d', '%z', '007', '00', '04', '7', '0010']
 
 
 def gen_value(rng, allow_empty=True):
@@ -104,6 +104,35 @@ def gen_value(rng, allow_empty=True):
             v = 'v2'
         return v
     return gen_plain(rng, 1, 4)
+
+
+def norm_dim(key, v):
+    """the documented normalisation of a configured value (persistence.py:88-96): cores that are
+    digit strings are numbers; an empty input size / variable value means none.  Nothing else: in
+    particular an input size "007" stays "007"."""
+    if key == 'cores' and isinstance(v, str) and v.isdigit():
+        return int(v)
+    if key in ('input_sizes', 'variable_values') and v == '':
+        return None
+    return v
+
+
+def configured_rendering(info, key, attr):
+    """how the run's value of this dimension is spelled in the configuration (after the documented
+    normalisation); falls back to the run's own attribute when the dimension is not configured"""
+    def s(v):
+        return '' if v is None else str(v)
+    conf = (info.get('dims') or {}).get(key)
+    if not conf:
+        return s(attr)
+    for c in conf:
+        n = norm_dim(key, c)
+        if n == attr and type(n) is type(attr):
+            return s(n)
+    for c in conf:      # the run carries a value that is not configured: which one was meant?
+        if s(c).lstrip('0') == s(attr).lstrip('0'):
+            return s(norm_dim(key, c))
+    return s(attr)
 
 
 PATHS = [None, '.', 'bin', './bin', '/opt/x', '~/vm', '~', 'a/../b', 'bin/', '/', '//x', '///y', '..', '../up',
@@ -179,11 +208,15 @@ def gen_config(rng, for_sessions=False, allow_malformed=True, braces=None, env_t
             vals = []
             while len(vals) < n:
                 v = gen_value(rng)
-                if key == 'cores' and isinstance(v, str) and (v.isdigit() or v == ''):
+                if key == 'cores' and v == '':
                     continue
                 if key == 'tags' and not isinstance(v, str):
                     v = 't%d' % v
                 v = fix(v)
+                # cores given as digit strings are numbers to ReBench (persistence.py: create_run_id):
+                # "04" and 4 are the same run
+                if key == 'cores' and any(norm_dim('cores', v) == norm_dim('cores', w) for w in vals):
+                    continue
                 if v not in vals:
                     vals.append(v)
             dims[key] = vals
@@ -454,9 +487,12 @@ def spec_values(info, run, invocation, documented_defaults=True):
     if warm is None and documented_defaults:
         warm = 0          # docs/config.md: "warmup … Default: `0`"
     iters = 1 if info['iterations'] is None else info['iterations']
-    return {'benchmark': b['command'], 'cores': s(run.cores), 'executor': ex_of(info, run)['name'],
-            'input': s(run.input_size), 'iterations': str(iters), 'invocation': str(invocation),
-            'suite': info['suite'], 'variable': s(run.var_value), 'tag': s(run.tag), 'warmup': str(warm)}
+    return {'benchmark': b['command'], 'cores': configured_rendering(info, 'cores', run.cores),
+            'executor': ex_of(info, run)['name'],
+            'input': configured_rendering(info, 'input_sizes', run.input_size), 'iterations': str(iters),
+            'invocation': str(invocation), 'suite': info['suite'],
+            'variable': configured_rendering(info, 'variable_values', run.var_value),
+            'tag': configured_rendering(info, 'tags', run.tag), 'warmup': str(warm)}
 
 
 def spec_path(cwd, p):
